@@ -131,7 +131,7 @@ def run_check(pid, tier, replay=None):
         cases += cs2
         # (c) one struct with two leaves
         d = scratch.sub("srcn")
-        write_model(d, kinds[:8], ["none", "snake"], ["struct", "pstruct", "emb"], 1, 3, True, False)
+        write_model(d, kinds[:8] if not quick else kinds, ["none", "snake"], ["struct", "pstruct", "emb"], 1, 4, True, False)
         res3 = C.run_tlc(d, "MCSources", "S.cfg", timeout=3000)
         cs3 = [c for c in cases_of(res3.out) if c["fields"][0]["nest"]]
         states += res3.distinct
